@@ -416,10 +416,13 @@ bool journal_t::add_xact(xact_t * xact)
                                         other->posts.end());
       std::sort(other_posts.begin(), other_posts.end(),
                 lt_posting_account);
-      bool match = std::equal(this_posts.begin(), this_posts.end(),
-                              other_posts.begin(), is_equivalent_posting);
+      // std::equal walks other_posts for as long as this_posts lasts, so the
+      // sizes have to agree before it may be called
+      bool match = this_posts.size() == other_posts.size() &&
+        std::equal(this_posts.begin(), this_posts.end(),
+                   other_posts.begin(), is_equivalent_posting);
 
-      if (! match || this_posts.size() != other_posts.size()) {
+      if (! match) {
         add_error_context(_("While comparing this previously seen transaction:"));
         add_error_context(source_context(other->pos->pathname,
                                          other->pos->beg_pos,
